@@ -6,6 +6,7 @@ import (
 	"sort"
 	"strings"
 	"sync"
+	"sync/atomic"
 	"time"
 
 	"govc/smt"
@@ -23,6 +24,7 @@ type outcome struct {
 }
 
 var solverSem = make(chan struct{}, 10) // bounds concurrently running solver races
+var caseSem = make(chan struct{}, 12)
 
 // runQuery races the back ends on one script.
 func runQuery(L *Loaded, asserts []*smt.Term, gets []*smt.Term, timeout, seed int) outcome {
@@ -186,11 +188,23 @@ func solveOne(L *Loaded, rep *vc.FuncReport, ob *vc.Obligation, timeout, seed in
 	runCases := func(cases []caseInst, what string) outcome {
 		outs := make([]outcome, len(cases))
 		var wg sync.WaitGroup
+		var stop int32
 		for i := range cases {
 			i := i
 			wg.Add(1)
 			go func() {
 				defer wg.Done()
+				caseSem <- struct{}{}
+				defer func() { <-caseSem }()
+				if atomic.LoadInt32(&stop) != 0 {
+					outs[i] = outcome{verdict: smt.Unsat, solver: "skipped"} // another case already failed
+					return
+				}
+				defer func() {
+					if outs[i].verdict != smt.Unsat {
+						atomic.StoreInt32(&stop, 1)
+					}
+				}()
 				ci := cases[i]
 				scriptMu.Lock()
 				var as []*smt.Term
@@ -199,12 +213,17 @@ func solveOne(L *Loaded, rep *vc.FuncReport, ob *vc.Obligation, timeout, seed in
 				}
 				g := X.Subst(ob.Goal, ci.subst)
 				as = append(as, ci.extra...)
+				// the observed input terms are instantiated too, so that a model describes the case's input
+				cgets := make([]*smt.Term, len(gets))
+				for k, gt := range gets {
+					cgets[k] = X.Subst(gt, ci.subst)
+				}
 				scriptMu.Unlock()
 				if ci.cover {
-					outs[i] = runQuery(L, as, gets, timeout, seed)
+					outs[i] = runQuery(L, as, cgets, timeout, seed)
 					return
 				}
-				outs[i] = proveInstance(L, as, g, gets, timeout, seed)
+				outs[i] = proveInstance(L, as, g, cgets, timeout, seed)
 			}()
 		}
 		wg.Wait()
@@ -236,9 +255,27 @@ func solveOne(L *Loaded, rep *vc.FuncReport, ob *vc.Obligation, timeout, seed in
 	neg := X.Not(ob.Goal)
 	scriptMu.Unlock()
 	o := runQuery(L, append(append([]*smt.Term{}, base...), neg), gets, quick, seed)
-	if o.verdict == smt.Unsat {
+	if o.verdict != smt.Unknown {
 		finish(o)
 		return
+	}
+	// a short expanded attempt finds counterexamples of genuinely failing obligations cheaply
+	scriptMu.Lock()
+	quant := smt.HasRangeQuant(append(append([]*smt.Term{}, base...), ob.Goal)...)
+	scriptMu.Unlock()
+	if quant {
+		scriptMu.Lock()
+		eb := make([]*smt.Term, len(base))
+		for i, a := range base {
+			eb[i] = X.ExpandRanges(a)
+		}
+		eneg := X.Not(X.ExpandRanges(ob.Goal))
+		scriptMu.Unlock()
+		o = runQuery(L, append(eb, eneg), gets, quick+4, seed)
+		if o.verdict != smt.Unknown {
+			finish(o)
+			return
+		}
 	}
 	var cases []caseInst
 	cases = append(cases, caseInst{label: "", subst: map[*smt.Term]*smt.Term{}})
@@ -268,7 +305,9 @@ func solveOne(L *Loaded, rep *vc.FuncReport, ob *vc.Obligation, timeout, seed in
 				}
 				w := cb.Term.S.W
 				m[cb.Term] = X.BVOr(X.BVAnd(cb.Term, X.Const(^cb.Mask, w)), X.Const(k, w))
-				next = append(next, caseInst{label: fmt.Sprintf("%s bits=%#x", c0.label, k), subst: m})
+				// the unsubstituted byte (still reachable through reads at symbolic indices) agrees with the case
+				ex := append(append([]*smt.Term{}, c0.extra...), X.Eq(X.BVAnd(cb.Term, X.Const(cb.Mask, w)), X.Const(k, w)))
+				next = append(next, caseInst{label: fmt.Sprintf("%s bits=%#x", c0.label, k), subst: m, extra: ex})
 			}
 		}
 		cases = next
